@@ -309,6 +309,13 @@ static void init(void) {
   dfs_k = 5;
   dfs1_k = vf_tier ? 7 : 6;
   dfs2_k = vf_tier ? 8 : 7;
+  { /* a second build of this harness (MemorySanitizer) runs a smaller space: the bounds can be lowered from the environment */
+    const char* e;
+    if ((e = getenv("VF_DFS_K"))) dfs_k = (unsigned)atoi(e);
+    if ((e = getenv("VF_DFS1_K"))) dfs1_k = (unsigned)atoi(e);
+    if ((e = getenv("VF_DFS2_K"))) dfs2_k = (unsigned)atoi(e);
+    if (getenv("VF_DFS_K") || getenv("VF_SKIP_BN")) vf_extra("reduced_space", "B(n) %s; DFS depths %u / %u / %u (set from the environment for this build)", getenv("VF_SKIP_BN") ? "skipped" : "kept", dfs_k, dfs1_k, dfs2_k);
+  }
   neigh_k = vf_tier ? 4 : 3;
   trunc_k = vf_tier ? 5 : 4;
   cap_bn = 64 * 1024;
